@@ -493,3 +493,73 @@
                          ValueRepr::F64(_) => "f64", ValueRepr::Bool(_) => "bool", _ => "other" }
         }
     }
+
+    // ---- containers: ordering / equality / hashing recurse through dyn Object (no contract within reach): BOUNDED native
+//# ob name=container_pool_native role=native_bounded fn="impl Ord/PartialEq/Hash for Value + impl Hash for DynObject" kind=bounded bound="pool of ~60 container values: the sequences [], [0], [0, 2, 4], [0, 2.0, 4], [1], [0, 2], nested ones and byte strings, each built as a Vec-backed list, a tuple, a lazy iterable with an exact size hint, a lazy iterable without one (filtered), a sliced / concatenated / reversed template expression; the maps {}, {a: 1}, {a: 1, b: 2}, {a: 1.0, b: 2} as a BTreeMap value, a template dict literal, a dict() call and a custom Object enumerating lazily in key order; all ordered pairs and all triples" stmt="for containers too: cmp is antisymmetric and transitive, a == b iff cmp(a, b) is Equal, equal values hash identically (whatever object holds the elements and whether or not it knows its length), equality is transitive"
+    fn container_pool_native() {
+        use std::collections::hash_map::DefaultHasher;
+        use std::collections::BTreeMap;
+        use std::hash::{Hash, Hasher};
+        use std::sync::Arc;
+        use crate::value::{Enumerator, Object, ObjectRepr, ValueKind};
+        fn h(v: &Value) -> u64 { let mut s = DefaultHasher::new(); v.hash(&mut s); s.finish() }
+        #[derive(Debug)]
+        struct LazyMap(Vec<(&'static str, Value)>);
+        impl Object for LazyMap {
+            fn repr(self: &Arc<Self>) -> ObjectRepr { ObjectRepr::Map }
+            fn get_value(self: &Arc<Self>, key: &Value) -> Option<Value> { let k = key.as_str()?; self.0.iter().find(|(n, _)| *n == k).map(|(_, v)| v.clone()) }
+            fn enumerate(self: &Arc<Self>) -> Enumerator {
+                let keys: Vec<Value> = self.0.iter().map(|(n, _)| Value::from(*n)).collect();
+                let mut i = 0;
+                Enumerator::Iter(Box::new(std::iter::from_fn(move || { let r = keys.get(i).cloned(); i += 1; r })))
+            }
+        }
+        let env = crate::Environment::new();
+        let ev = |src: &str| env.compile_expression(src).unwrap().eval(()).unwrap();
+        let mut pool: Vec<(String, Value)> = Vec::new();
+        let seqs: Vec<Vec<Value>> = vec![
+            vec![], vec![Value::from(0)], vec![Value::from(0), Value::from(2), Value::from(4)], vec![Value::from(0), Value::from(2.0), Value::from(4u64)],
+            vec![Value::from(1)], vec![Value::from(0), Value::from(2)], vec![Value::from(vec![Value::from(0)]), Value::from("s")],
+        ];
+        for (i, items) in seqs.iter().enumerate() {
+            pool.push((format!("vec#{i}"), Value::from(items.clone())));
+            pool.push((format!("tuple#{i}"), Value::from(crate::value::Tuple::from(items.clone()))));
+            let a = items.clone(); pool.push((format!("lazy-exact#{i}"), Value::make_iterable(move || a.clone().into_iter())));
+            let b = items.clone(); pool.push((format!("lazy-filtered#{i}"), Value::make_iterable(move || b.clone().into_iter().filter(|_| true))));
+            let c = items.clone(); pool.push((format!("object-iterable#{i}"), Value::make_object_iterable(c, |c| Box::new(c.iter().cloned()))));
+        }
+        for src in ["[0, 2, 4]", "[9, 0, 2, 4][1:]", "[0] + [2, 4]", "[4, 2, 0]|reverse", "[4, 2, 0]|reverse|list", "range(0, 5, 2)", "range(0, 5, 2)|list", "(0, 2, 4)", "[0, 2, 4]|map('int')", "[]", "[] + []", "[0][1:]"] {
+            pool.push((src.to_string(), ev(src)));
+        }
+        pool.push(("bytes".into(), Value::from_bytes(vec![0, 2, 4])));
+        pool.push(("bytes-empty".into(), Value::from_bytes(vec![])));
+        let maps: Vec<Vec<(&'static str, Value)>> = vec![vec![], vec![("a", Value::from(1))], vec![("a", Value::from(1)), ("b", Value::from(2))], vec![("a", Value::from(1.0)), ("b", Value::from(2u64))], vec![("a", Value::from(2))]];
+        for (i, m) in maps.iter().enumerate() {
+            pool.push((format!("btreemap#{i}"), Value::from(m.iter().cloned().collect::<BTreeMap<_, _>>())));
+            pool.push((format!("lazymap#{i}"), Value::from_object(LazyMap(m.clone()))));
+        }
+        for src in ["{}", "{'a': 1}", "{'a': 1, 'b': 2}", "dict(a=1, b=2)", "dict(a=1)", "{'a': 1.0, 'b': 2}"] { pool.push((src.to_string(), ev(src))); }
+        for (na, a) in &pool { for (nb, b) in &pool {
+            let o = a.cmp(b);
+            assert!(b.cmp(a) == o.reverse(), "antisymmetry: {na} {nb}");
+            let e = a == b;
+            assert!(e == (b == a), "== not symmetric: {na} {nb}");
+            // listed known finding: a list (kind Seq) equals a lazy iterable (kind Iterable) with the same elements, but
+            // cmp orders by kind first. Witness: seq_vs_iterable_native. Everything else must agree.
+            let listed = (a.kind() == ValueKind::Seq && b.kind() == ValueKind::Iterable) || (a.kind() == ValueKind::Iterable && b.kind() == ValueKind::Seq);
+            if !listed { assert!(e == (o == Ordering::Equal), "order disagrees with ==: {na} = {a:?} and {nb} = {b:?}: cmp={o:?} eq={e}"); }
+            if e { assert!(h(a) == h(b), "equal values hash differently: {na} = {a:?} and {nb} = {b:?}"); }
+        }}
+        for (na, a) in &pool { for (nb, b) in &pool { for (nc, c) in &pool {
+            if a.cmp(b) != Ordering::Greater && b.cmp(c) != Ordering::Greater { assert!(a.cmp(c) != Ordering::Greater, "cmp not transitive: {na} {nb} {nc}"); }
+            if a == b && b == c { assert!(a == c, "== not transitive: {na} {nb} {nc}"); }
+        }}}
+        assert!(pool.len() > 55, "{}", pool.len());
+    }
+
+//# ob name=seq_vs_iterable_native role=native_bounded fn="impl Ord/PartialEq for Value" kind=bounded bound="one pair: the list [0, 2, 4] against a lazy iterable yielding 0, 2, 4" stmt="a == b iff cmp(a, b) is Equal also for a list against a lazy iterable with the same elements"
+    fn seq_vs_iterable_native() {
+        let a = Value::from(vec![Value::from(0), Value::from(2), Value::from(4)]);
+        let b = Value::make_iterable(|| [0, 2, 4].into_iter().map(Value::from));
+        assert!((a == b) == (a.cmp(&b) == Ordering::Equal), "[0, 2, 4] == lazy(0, 2, 4) is {} but cmp says {:?}", a == b, a.cmp(&b));
+    }
